@@ -29,6 +29,8 @@ import (
 type lindellTamper[E algebra.PrimeGroupElement[E, S], S algebra.PrimeFieldElement[S]] struct {
 	PSig func(sender sharing.ID, p *lindell22.PartialSignature[E, S]) *lindell22.PartialSignature[E, S]
 	R2B  func(sender sharing.ID, m *signing.Round2Broadcast[E, S, vanilla.Message]) *signing.Round2Broadcast[E, S, vanilla.Message]
+	R1B  func(sender sharing.ID, m *signing.Round1Broadcast[E, S, vanilla.Message]) *signing.Round1Broadcast[E, S, vanilla.Message]
+	R1U  func(sender, rcpt sharing.ID, m *signing.Round1P2P[E, S, vanilla.Message]) *signing.Round1P2P[E, S, vanilla.Message]
 	// Pre runs after round 3 (and PSig tampering), before any aggregator sees the partial signatures
 	Pre func(psigs map[sharing.ID]*lindell22.PartialSignature[E, S])
 }
@@ -81,12 +83,22 @@ func runLindell22[E algebra.PrimeGroupElement[E, S], S algebra.PrimeFieldElement
 			res.Errs[id], res.Round[id] = err, 1
 			return res, nil
 		}
+		if tamper != nil && tamper.R1B != nil {
+			b = tamper.R1B(id, b)
+		}
+		if tamper != nil && tamper.R1U != nil && u != nil {
+			u = mapUnicasts(u, func(rcpt sharing.ID, m *signing.Round1P2P[E, S, vanilla.Message]) *signing.Round1P2P[E, S, vanilla.Message] {
+				return tamper.R1U(id, rcpt, m)
+			})
+		}
 		r1b[id], r1u[id] = b, u
 	}
 	r2b := map[sharing.ID]*signing.Round2Broadcast[E, S, vanilla.Message]{}
 	for _, id := range quorum {
 		env.SetActor(fmt.Sprint(id))
-		b, err := cos[id].Round2(othersOf(id, r1b), unicastsTo(id, r1u))
+		b, err := guarded(func() (*signing.Round2Broadcast[E, S, vanilla.Message], error) {
+			return cos[id].Round2(othersOf(id, r1b), unicastsTo(id, r1u))
+		})
 		if err != nil {
 			res.Errs[id], res.Round[id] = err, 2
 			continue
